@@ -144,6 +144,16 @@ Theorem c06_jwe_type_class :
      jwe_decrypt_alg prim r en k sender e = Err (EJose InvalidKeyTypeError)).
 Proof. exact jwe_type_class. Qed.
 
+(* ECDH-1PU decryption: the key-type gate is an explicit joserfc check too (after the enc
+   restriction, with a sender key); a missing sender key is a DecodeError *)
+Theorem c06_jwe_1pu_decrypt_classes :
+  forall prim r en k s e,
+    ea_family r = "ECDH1PU" -> check_enc_1pu r en = Ok tt ->
+    (mem_str (kty_str (k_kty k)) (ea_key_types r) = false ->
+     jwe_decrypt_alg prim r en k (Some s) e = Err (EJose InvalidKeyTypeError)) /\
+    map_exchange_err (jwe_decrypt_alg prim r en k None e) = Err (EJose DecodeError).
+Proof. exact jwe_1pu_decrypt_classes. Qed.
+
 Theorem c06_jwe_wrap_size_class :
   forall prim r en k sender e sz,
     In r jwe_alg_table_drafts -> (ea_family r = "AESKW" \/ ea_family r = "AESGCMKW") ->
@@ -280,6 +290,16 @@ Example c06_jwe_instances :
           (Some (ex_key KEc "secp256k1" 0 true None None)) nek true = Err (EJose InvalidExchangeKeyError) /\
   jwe_run prim_std EJwtEncode SrcKey "A128KW" "A128GCM" (ex_key KOct "" 128 true (Some "sig") None) None nek true
     = Err (EJose UnsupportedKeyUseError) /\
+  jwe_run prim_std EDecFlat SrcKey "ECDH-1PU" "A128GCM" (ex_key KOct "" 256 true None None)
+          (Some (ex_key KEc "P-256" 0 false None None)) {| epk_kty := KEc; epk_crv := "P-256" |} true
+    = Err (EJose InvalidKeyTypeError) /\
+  jwe_run prim_std EDecCompact SrcKey "ECDH-1PU" "A128GCM" (ex_key KEc "P-256" 0 true None None)
+          None {| epk_kty := KEc; epk_crv := "P-256" |} true = Err (EJose DecodeError) /\
+  jwe_run prim_std EDecCompact SrcKey "ECDH-1PU" "A128GCM" (ex_key KEc "P-256" 0 true None None)
+          (Some (ex_key KRsa "" 2048 false None None)) {| epk_kty := KEc; epk_crv := "P-256" |} true
+    = Err (EJose DecodeError) /\
+  jwe_run prim_std EDecCompact SrcKey "ECDH-1PU" "A128GCM" (ex_key KEc "P-256" 0 true None None)
+          (Some (ex_key KEc "P-256" 0 false None None)) {| epk_kty := KEc; epk_crv := "P-256" |} true = Ok tt /\
   jwe_run prim_std EEncFlatPre SrcKey "A128KW" "A128GCM" (ex_key KOct "" 128 true (Some "sig") None) None nek true
     = Err (EJose UnsupportedKeyUseError) /\
   jwe_run prim_std EEncGenPre SrcKey "A128KW" "A128GCM" (ex_key KOct "" 128 true (Some "enc") None) None nek true = Ok tt /\
@@ -312,6 +332,7 @@ Print Assumptions c06_jwe_preattached.
 Print Assumptions c06_jwe_use_class.
 Print Assumptions c06_jwe_sender_use_class.
 Print Assumptions c06_jwe_type_class.
+Print Assumptions c06_jwe_1pu_decrypt_classes.
 Print Assumptions c06_jwe_wrap_size_class.
 Print Assumptions c06_jwe_rsa_size_class.
 Print Assumptions c06_table_jws.
